@@ -17,9 +17,11 @@ import (
 	"math"
 	"os"
 	"path/filepath"
+	"runtime"
 	"sort"
 	"strconv"
 	"strings"
+	"sync"
 	"time"
 )
 
@@ -34,8 +36,17 @@ type vReplayFile struct {
 	Label   string         `json:"label"`
 	Key     string         `json:"key"`
 	Kind    string         `json:"kind"`
+	Sched   *vSchedInfo    `json:"sched"`
 	Bounds  map[string]int `json:"bounds"`
 	Vector  []vReplayVal   `json:"vector"`
+}
+
+// vSchedInfo: the first preemption the engine's scheduler chose (see sched.go).
+type vSchedInfo struct {
+	First  int    `json:"first"`
+	Thread int    `json:"thread"`
+	Where  string `json:"where"`
+	Nth    int    `json:"nth"`
 }
 
 type vVacuous struct{ why string }
@@ -60,6 +71,7 @@ func vLoadReplay(path string) (*vReplayFile, error) {
 		return nil, err
 	}
 	vVec, vPos, vBounds = rf.Vector, 0, rf.Bounds
+	vSched = rf.Sched
 	vFailures, vObs, vAsserts = nil, nil, nil
 	return rf, nil
 }
@@ -303,6 +315,10 @@ func vParN(fs ...func()) {
 				return
 			}
 		}
+		return
+	}
+	if vSched != nil && vSched.Thread >= 1 && vSched.Thread <= len(fs) {
+		vParHandoff(fs)
 		return
 	}
 	done := make(chan struct{}, len(fs))
@@ -689,3 +705,137 @@ func vJSONSwap(path, ja, jb string) bool {
 
 // vNoHang: natively a hang is a hang (the replay's test timeout reports it).
 func vNoHang(on bool) {}
+
+// ---- following the engine's schedule natively ----
+// A counterexample of the two-thread scheduler whose threads do not race (an
+// atomicity violation) only shows in the native build under the same
+// interleaving.  The replay file carries the first preemption: thread T was
+// about to make its Nth lock acquisition inside function W when the other
+// threads ran.  vParHandoff starts the thread(s) in that order and the lock
+// hook (vlkOp) parks T at that acquisition until the others have finished (or
+// are themselves blocked: 300 ms without progress).
+
+var (
+	vSched     *vSchedInfo
+	vhoMu      sync.Mutex
+	vhoGID     int            // goroutine of the thread to park
+	vhoCount   map[string]int // acquisitions per function of that goroutine
+	vhoRelease chan struct{}  // closed when the parked thread may go on
+	vhoParked  chan struct{}  // closed when the thread reached the hand-off point
+	vhoArmed   bool
+)
+
+func vhoNorm(fn string) string {
+	fn = strings.ReplaceAll(fn, "github.com/0xrawsec/sod.", "")
+	// ssa names closures f$1, the runtime f.func1
+	for n := 9; n >= 1; n-- {
+		fn = strings.ReplaceAll(fn, "$"+strconv.Itoa(n), ".func"+strconv.Itoa(n))
+	}
+	return fn
+}
+
+// vhoPoint is called by vlkOp before a Lock/RLock.
+func vhoPoint(gid int) {
+	vhoMu.Lock()
+	if !vhoArmed || gid != vhoGID {
+		vhoMu.Unlock()
+		return
+	}
+	pc := make([]uintptr, 1)
+	name := ""
+	if runtime.Callers(3, pc) == 1 {
+		if f := runtime.FuncForPC(pc[0] - 1); f != nil {
+			name = vhoNorm(f.Name())
+		}
+	}
+	want := vhoNorm(vSched.Where)
+	if name != want {
+		vhoMu.Unlock()
+		return
+	}
+	n := vhoCount[name]
+	vhoCount[name] = n + 1
+	if n != vSched.Nth {
+		vhoMu.Unlock()
+		return
+	}
+	vhoArmed = false
+	parked, release := vhoParked, vhoRelease
+	vhoMu.Unlock()
+	close(parked)
+	<-release
+}
+
+func vParHandoff(fs []func()) {
+	n := len(fs)
+	done := make([]chan struct{}, n)
+	start := make([]chan struct{}, n)
+	for k := range fs {
+		done[k], start[k] = make(chan struct{}), make(chan struct{})
+	}
+	vhoMu.Lock()
+	vhoCount = map[string]int{}
+	vhoRelease, vhoParked = make(chan struct{}), make(chan struct{})
+	vhoGID, vhoArmed = -1, false
+	vhoMu.Unlock()
+	target := vSched.Thread - 1
+	for k := range fs {
+		k := k
+		go func() {
+			defer close(done[k])
+			defer func() { recover() }()
+			<-start[k]
+			if k == target {
+				vhoMu.Lock()
+				vhoGID, vhoArmed = vlkGID(), true
+				vhoMu.Unlock()
+			}
+			fs[k]()
+		}()
+	}
+	wait := func(c chan struct{}, d time.Duration) bool {
+		select {
+		case <-c:
+			return true
+		case <-time.After(d):
+			return false
+		}
+	}
+	first := vSched.First - 1
+	if first < 0 || first >= n {
+		first = target
+	}
+	started := make([]bool, n)
+	if first != target {
+		// another thread ran first, to its end or until it blocked
+		close(start[first])
+		started[first] = true
+		wait(done[first], 2*time.Second)
+	}
+	close(start[target])
+	started[target] = true
+	// the target runs up to the hand-off point (or finishes without reaching it)
+	select {
+	case <-vhoParked:
+	case <-done[target]:
+	case <-time.After(5 * time.Second):
+	}
+	for k := range fs {
+		if !started[k] {
+			close(start[k])
+			started[k] = true
+		}
+	}
+	for k := range fs {
+		if k != target {
+			wait(done[k], 300*time.Millisecond)
+		}
+	}
+	close(vhoRelease)
+	for k := range fs {
+		if !wait(done[k], 20*time.Second) {
+			vFailures = append(vFailures, "deadlock")
+			return
+		}
+	}
+}
